@@ -1,10 +1,12 @@
 package checks
 
 import (
+	"context"
 	"errors"
 	"fmt"
 	"os"
 	"sync"
+	"time"
 
 	"github.com/jrhy/mast/persist/file"
 
@@ -44,7 +46,7 @@ func genC11(t *rapid.T, tier string) C11Case {
 		Keys: []string{core.KLK, core.KLK, core.KInt, core.KString, core.KUint64, core.KStruct, core.KStruct, core.KBytes},
 		BFs:  []uint{2, 2, 3, 4, 16},
 	})}
-	c.Env = rapid.SampledFrom([]string{"frozen", "frozen", "frozen", "real", "real", "file"}).Draw(t, "env")
+	c.Env = rapid.SampledFrom([]string{"frozen", "frozen", "frozen", "real", "real", "file", "isolation"}).Draw(t, "env")
 	pool := len(c.Cfg.Pool())
 	c.Base = append(core.GenFill(t, pool, pool), core.GenProgram(t, core.OpWeights{core.OpInsertNew: 5, core.OpDelete: 5, core.OpPersist: 3}, 12, 1)...)
 	n := rapid.IntRange(2, 8).Draw(t, "nworkers")
@@ -94,6 +96,9 @@ func runC11(c C11Case, o *run.Obs) error {
 	}
 	roots := append(m.Roots, sr)
 
+	if c.Env == "isolation" {
+		return runC11Isolation(c, o, w, roots)
+	}
 	var realStore mast.Persist
 	var realCache mast.NodeCache
 	var base *env.FrozenBase
@@ -381,4 +386,135 @@ func init() {
 		Run:         runC11,
 		WriteBefore: true,
 	})
+}
+
+// holdStore is a healthy store one of whose reads can be held in flight: the first Load after arm() announces
+// itself and then waits for its caller's context to end (returning that context's error) or for release().
+type holdStore struct {
+	inner   mast.Persist
+	mu      sync.Mutex
+	armed   bool
+	failOne bool // the held read ends with a one-off store error instead of waiting for its context
+	arrived chan struct{}
+	release chan struct{}
+}
+
+var errOneOff = errors.New("harness: one-off store error on this request only")
+
+func (h *holdStore) NodeURLPrefix() string { return h.inner.NodeURLPrefix() }
+func (h *holdStore) Store(ctx context.Context, name string, b []byte) error {
+	return h.inner.Store(ctx, name, b)
+}
+func (h *holdStore) Load(ctx context.Context, name string) ([]byte, error) {
+	h.mu.Lock()
+	held := h.armed
+	h.armed = false
+	h.mu.Unlock()
+	if held {
+		close(h.arrived)
+		select {
+		case <-ctx.Done():
+			return nil, ctx.Err()
+		case <-h.release:
+			if h.failOne {
+				return nil, errOneOff
+			}
+		}
+	}
+	return h.inner.Load(ctx, name)
+}
+
+// runC11Isolation: two trees opened from the same root over one store and one (cold) shared cache. Tree A iterates
+// under a context of its own; its first read from the store is held in flight and then ends with A's own
+// cancellation (or a one-off error on that request). Tree B, with a live context on the same healthy store, iterates
+// at the same time and needs the same nodes: it must behave exactly as if it ran alone.
+func runC11Isolation(c C11Case, o *run.Obs, w *core.World, roots []*core.SavedRoot) error {
+	r := roots[len(roots)-1]
+	for _, x := range roots {
+		if x.Root.Height > r.Root.Height {
+			r = x
+		}
+	}
+	if r.Root.Height == 0 {
+		o.Label("isolation:flat-tree(skipped)")
+		return nil
+	}
+	inner := mast.NewInMemoryStore()
+	for name, b := range w.Store.Snapshot() {
+		inner.Store(core.Ctx, name, b)
+	}
+	hs := &holdStore{inner: inner, arrived: make(chan struct{}), release: make(chan struct{}), failOne: len(c.Workers)%2 == 0}
+	cache := mast.NewNodeCache(256)
+	a, err := w.Load(r, hs, cache, false)
+	if err != nil {
+		o.Label("aborted:base-failure")
+		return nil
+	}
+	b, err := w.Load(r, hs, cache, false)
+	if err != nil {
+		o.Label("aborted:base-failure")
+		return nil
+	}
+	hs.mu.Lock()
+	hs.armed = true
+	hs.mu.Unlock()
+	ctxA, cancelA := context.WithCancel(context.Background())
+	defer cancelA()
+	doneA := make(chan error, 1)
+	go func() {
+		doneA <- core.Safely("Iter", func() error {
+			return a.M.Iter(ctxA, func(k, v interface{}) error { return nil })
+		})
+	}()
+	select {
+	case <-hs.arrived:
+	case errA := <-doneA:
+		// A finished without reading from the store (everything it needed was in memory): nothing to observe
+		_ = errA
+		o.Label("isolation:no-store-read(skipped)")
+		return nil
+	}
+	doneB := make(chan error, 1)
+	go func() { doneB <- w.Check(b) }()
+	var errB error
+	finishedB := false
+	select {
+	case errB = <-doneB:
+		finishedB = true
+	case <-time.After(50 * time.Millisecond):
+		// B is waiting for something other than its own reads; end A's request and see what B makes of it
+	}
+	if hs.failOne {
+		close(hs.release)
+	} else {
+		cancelA()
+	}
+	if !finishedB {
+		select {
+		case errB = <-doneB:
+		case <-time.After(20 * time.Second):
+			return fmt.Errorf("harness: tree B did not finish within 20 s")
+		}
+	}
+	<-doneA // A may fail (its own request ended) or succeed; either is its own business
+	if hs.failOne {
+		cancelA()
+	} else {
+		close(hs.release)
+	}
+	if errB != nil {
+		how := "A's context was cancelled while its read was in flight"
+		if hs.failOne {
+			how = "one read of A ended with an error on that request only"
+		}
+		return fmt.Errorf("[%s] env=isolation: trees A and B opened from the same root over one healthy store and one shared cache; %s; tree B (live context, never faulted) did not behave as it would alone: %w", c.Cfg, how, errB)
+	}
+	o.NonTrivial = true
+	o.Label("env=isolation")
+	if hs.failOne {
+		o.Label("isolation:one-off-error")
+	} else {
+		o.Label("isolation:context-cancelled")
+	}
+	return nil
 }
